@@ -1203,9 +1203,12 @@ _subcache(PyObject* cache, PyObject* key)
 {
     PyObject* subcache;
 
-    subcache = PyDict_GetItem(cache, key);
+    subcache = PyDict_GetItemWithError(cache, key);
     if (subcache == NULL) {
         int status;
+
+        if (PyErr_Occurred())
+            return NULL;
 
         subcache = PyDict_New();
         if (subcache == NULL)
@@ -1304,9 +1307,16 @@ _lookup(LB* self,
     else
         key = required;
 
-    result = PyDict_GetItem(cache, key);
+    result = PyDict_GetItemWithError(cache, key);
     if (result == NULL) {
         int status;
+
+        if (PyErr_Occurred()) {
+            /* e.g. an unhashable ``required``: as ``cache.get(key)`` */
+            Py_DECREF(cache);
+            Py_DECREF(required);
+            return NULL;
+        }
 
         result = PyObject_CallMethodObjArgs(
           OBJECT(self), str_uncached_lookup, required, provided, name, NULL);
@@ -1386,7 +1396,7 @@ _lookup1(LB* self,
     if (cache == NULL)
         return NULL;
 
-    result = PyDict_GetItem(cache, required);
+    result = PyDict_GetItemWithError(cache, required);
     if (result != NULL) {
         if (result == Py_None && default_ != NULL) {
             result = default_;
@@ -1396,6 +1406,9 @@ _lookup1(LB* self,
     Py_DECREF(cache);
     if (result == NULL) {
         PyObject* tup;
+
+        if (PyErr_Occurred())
+            return NULL;
 
         tup = PyTuple_New(1);
         if (tup == NULL)
@@ -1581,9 +1594,15 @@ _lookupAll(LB* self, PyObject* required, PyObject* provided)
         return NULL;
     }
 
-    result = PyDict_GetItem(cache, required);
+    result = PyDict_GetItemWithError(cache, required);
     if (result == NULL) {
         int status;
+
+        if (PyErr_Occurred()) {
+            Py_DECREF(cache);
+            Py_DECREF(required);
+            return NULL;
+        }
 
         result = PyObject_CallMethodObjArgs(
           OBJECT(self), str_uncached_lookupAll, required, provided, NULL);
@@ -1664,9 +1683,15 @@ _subscriptions(LB* self, PyObject* required, PyObject* provided)
         return NULL;
     }
 
-    result = PyDict_GetItem(cache, required);
+    result = PyDict_GetItemWithError(cache, required);
     if (result == NULL) {
         int status;
+
+        if (PyErr_Occurred()) {
+            Py_DECREF(cache);
+            Py_DECREF(required);
+            return NULL;
+        }
 
         result = PyObject_CallMethodObjArgs(
           OBJECT(self), str_uncached_subscriptions, required, provided, NULL);
